@@ -62,13 +62,14 @@ Record st := MkSt {
   sto : store;
   ticker : N;                           (* j.checkpointTicker: 0 = never created, 1 = armed, 2 = stopped *)
   holdw : bool;                         (* harness: the next job-snapshot file write is held (slow storage) *)
-  writing : N                           (* id of the fully acknowledged checkpoint whose file write is in progress (0 none) *)
+  writing : N;                          (* id of the fully acknowledged checkpoint whose file write is in progress (0 none) *)
+  pick : option (list N * list N)       (* the nodes the next NewAssembly will choose (see OChoose); None = the lowest ids *)
 }.
 
 Record cfg := MkCfg { wc : nat; deadline : N; qk : quirks }.
 
 Definition init_store : store := MkStore None 0 0 0.
-Definition init : st := MkSt 0 [] [] [] Init [] [] 0 init_store 0 false 0.
+Definition init : st := MkSt 0 [] [] [] Init [] [] 0 init_store 0 false 0 None.
 
 (* Ticker.Stop (a ticker that was never created stays absent); clock.Every in the "running" task *)
 Definition tk_stop (t : N) : N := if t =? 0 then 0 else 2.
@@ -76,12 +77,12 @@ Definition tk_arm (q : quirks) (t : N) : N := if q_ticker_once q then (if t =? 0
 (* status change; leaving for Paused stops the checkpoint ticker (both places in job.go that set Paused do) *)
 Definition set_stat (s : st) (x : status) : st :=
   MkSt (now s) (ops s) (srs s) (hb s) x (a_ops s) (a_srs s) (dep_ck s) (sto s)
-       (match x with Paused => tk_stop (ticker s) | _ => ticker s end) (holdw s) (writing s).
+       (match x with Paused => tk_stop (ticker s) | _ => ticker s end) (holdw s) (writing s) (pick s).
 (* the queued "running" task of job.start: status Running and a fresh ticker *)
 Definition go_running (c : cfg) (s : st) : st :=
-  MkSt (now s) (ops s) (srs s) (hb s) Running (a_ops s) (a_srs s) (dep_ck s) (sto s) (tk_arm (qk c) (ticker s)) (holdw s) (writing s).
+  MkSt (now s) (ops s) (srs s) (hb s) Running (a_ops s) (a_srs s) (dep_ck s) (sto s) (tk_arm (qk c) (ticker s)) (holdw s) (writing s) (pick s).
 Definition set_sto (s : st) (x : store) : st :=
-  MkSt (now s) (ops s) (srs s) (hb s) (stat s) (a_ops s) (a_srs s) (dep_ck s) x (ticker s) (holdw s) (writing s).
+  MkSt (now s) (ops s) (srs s) (hb s) (stat s) (a_ops s) (a_srs s) (dep_ck s) x (ticker s) (holdw s) (writing s) (pick s).
 
 (* ---------- observations *)
 Record dep := MkDep { d_ops : list N; d_srs : list N; d_ck : list N; d_peers : bool }.
@@ -102,7 +103,7 @@ Definition purge (c : cfg) (s : st) : st :=
        (filter (fun n => negb (is_dead c s (true, n))) (ops s))
        (filter (fun n => negb (is_dead c s (false, n))) (srs s))
        (filter (fun e => negb (expired c (now s) e)) (hb s))
-       (stat s) (a_ops s) (a_srs s) (dep_ck s) (sto s) (ticker s) (holdw s) (writing s).
+       (stat s) (a_ops s) (a_srs s) (dep_ck s) (sto s) (ticker s) (holdw s) (writing s) (pick s).
 
 (* Assembly.Healthy *)
 Definition healthy (s : st) : bool :=
@@ -110,9 +111,32 @@ Definition healthy (s : st) : bool :=
 
 (* the beginning of job.start for a fresh assembly: abort a pending snapshot of the previous assembly
    (repaired code), read CurrentCheckpoint, register the new splitter, fan out Deploy *)
+(* Registry.NewAssembly chooses WorkerCount of the registered operators and WorkerCount of the registered runners.
+   WHICH ones, when more are registered (standbys), is not constrained by the property: the choice is an input ([pick],
+   set by OChoose). A choice is admissible when it is strictly ascending (the sorted map's order: every member gets the
+   same ordered peer list), has exactly WorkerCount elements, and consists of registered (purged = live) nodes. Without an
+   admissible choice the lowest ids are taken (what the code does today). *)
+Fixpoint sortedb (l : list N) : bool :=
+  match l with
+  | [] => true
+  | x :: t => match t with [] => true | y :: _ => (x <? y) && sortedb t end
+  end.
+Definition admissible (w : nat) (registered chosen : list N) : bool :=
+  sortedb chosen && Nat.eqb (length chosen) w && forallb (fun n => mem n registered) chosen.
+Definition choose_ops (c : cfg) (s : st) : list N :=
+  match pick s with
+  | Some (co, _) => if admissible (wc c) (ops s) co then co else firstn (wc c) (ops s)
+  | None => firstn (wc c) (ops s)
+  end.
+Definition choose_srs (c : cfg) (s : st) : list N :=
+  match pick s with
+  | Some (_, cr) => if admissible (wc c) (srs s) cr then cr else firstn (wc c) (srs s)
+  | None => firstn (wc c) (srs s)
+  end.
+
 Definition start_begin (c : cfg) (s : st) : st * list dep :=
-  let ao := firstn (wc c) (ops s) in
-  let ar := firstn (wc c) (srs s) in
+  let ao := choose_ops c s in
+  let ar := choose_srs c s in
   let so := sto s in
   let kept := if q_keep_pending (qk c) then pend so
               else match pend so with
@@ -121,7 +145,7 @@ Definition start_begin (c : cfg) (s : st) : st * list dep :=
                    end in
   let so' := MkStore kept (completed so) (ctr so)
                      (if q_splitters_accumulate (qk c) then splitters so + 1 else 1) in
-  (MkSt (now s) (ops s) (srs s) (hb s) Starting ao ar (completed so) so' (ticker s) (holdw s) (writing s),
+  (MkSt (now s) (ops s) (srs s) (hb s) Starting ao ar (completed so) so' (ticker s) (holdw s) (writing s) None,
    [MkDep ao ar (map (fun _ => completed so) ao) true]).
 
 (* job.evaluateClusterStatus *)
@@ -206,7 +230,8 @@ Inductive op :=
 | OSavepoint                            (* Job.HandleCreateSavepoint: o_cid = the id returned, o_res = 1 on error *)
 | OAckOp (n id : N) | OAckSr (n id : N)
 | OHoldW                                (* harness: the next job-snapshot file write blocks in the storage (one at a time) *)
-| OReleaseW.                            (* the held write returns: finishSnapshotAsync goes on; o_published = id iff it became current *)
+| OReleaseW                             (* the held write returns: finishSnapshotAsync goes on; o_published = id iff it became current *)
+| OChoose (co cr : list N).             (* not an event: fixes which nodes the next NewAssembly picks (any lists; only an admissible choice is used) *)
 
 Definition mk_obs (s : st) (ds : list dep) : obs := MkObs (status_code (stat s)) ds [] 0 0 0 0.
 
@@ -215,26 +240,26 @@ Definition mk_obs (s : st) (ds : list dep) : obs := MkObs (status_code (stat s))
 Definition after_ack (s : st) (so : store) (res pub : N) : st * obs :=
   if holdw s && negb (pub =? 0) then
     let s1 := MkSt (now s) (ops s) (srs s) (hb s) (stat s) (a_ops s) (a_srs s) (dep_ck s)
-                   (MkStore (pend so) (completed (sto s)) (ctr so) (splitters so)) (ticker s) false pub in
+                   (MkStore (pend so) (completed (sto s)) (ctr so) (splitters so)) (ticker s) false pub (pick s) in
     (s1, MkObs (status_code (stat s1)) [] [] 0 res 0 0)
   else let s1 := set_sto s so in (s1, MkObs (status_code (stat s1)) [] [] 0 res pub 0).
 
 Definition step (c : cfg) (s : st) (o : op) : st * obs :=
   match o with
   | ORegOp n =>
-      let s1 := MkSt (now s) (ins n (ops s)) (srs s) (hb_set (true, n) (now s) (hb s)) (stat s) (a_ops s) (a_srs s) (dep_ck s) (sto s) (ticker s) (holdw s) (writing s) in
+      let s1 := MkSt (now s) (ins n (ops s)) (srs s) (hb_set (true, n) (now s) (hb s)) (stat s) (a_ops s) (a_srs s) (dep_ck s) (sto s) (ticker s) (holdw s) (writing s) (pick s) in
       let '(s2, ds) := evaluate c s1 in (s2, mk_obs s2 ds)
   | ORegSr n =>
-      let s1 := MkSt (now s) (ops s) (ins n (srs s)) (hb_set (false, n) (now s) (hb s)) (stat s) (a_ops s) (a_srs s) (dep_ck s) (sto s) (ticker s) (holdw s) (writing s) in
+      let s1 := MkSt (now s) (ops s) (ins n (srs s)) (hb_set (false, n) (now s) (hb s)) (stat s) (a_ops s) (a_srs s) (dep_ck s) (sto s) (ticker s) (holdw s) (writing s) (pick s) in
       let '(s2, ds) := evaluate c s1 in (s2, mk_obs s2 ds)
   | ODeregOp n =>
-      let s1 := MkSt (now s) (rem n (ops s)) (srs s) (hb s) (stat s) (a_ops s) (a_srs s) (dep_ck s) (sto s) (ticker s) (holdw s) (writing s) in
+      let s1 := MkSt (now s) (rem n (ops s)) (srs s) (hb s) (stat s) (a_ops s) (a_srs s) (dep_ck s) (sto s) (ticker s) (holdw s) (writing s) (pick s) in
       let '(s2, ds) := evaluate c s1 in (s2, mk_obs s2 ds)
   | ODeregSr n =>
-      let s1 := MkSt (now s) (ops s) (rem n (srs s)) (hb s) (stat s) (a_ops s) (a_srs s) (dep_ck s) (sto s) (ticker s) (holdw s) (writing s) in
+      let s1 := MkSt (now s) (ops s) (rem n (srs s)) (hb s) (stat s) (a_ops s) (a_srs s) (dep_ck s) (sto s) (ticker s) (holdw s) (writing s) (pick s) in
       let '(s2, ds) := evaluate c s1 in (s2, mk_obs s2 ds)
   | OAdv ms =>
-      let s1 := MkSt (now s + ms) (ops s) (srs s) (hb s) (stat s) (a_ops s) (a_srs s) (dep_ck s) (sto s) (ticker s) (holdw s) (writing s) in
+      let s1 := MkSt (now s + ms) (ops s) (srs s) (hb s) (stat s) (a_ops s) (a_srs s) (dep_ck s) (sto s) (ticker s) (holdw s) (writing s) (pick s) in
       (s1, mk_obs s1 [])
   | OFin ok =>
       match stat s with
@@ -270,9 +295,12 @@ Definition step (c : cfg) (s : st) (o : op) : st * obs :=
       let '(so, res, pub) := ack_sr (sto s) n id in after_ack s so res pub
   | OHoldW =>
       if writing s =? 0 then
-        let s1 := MkSt (now s) (ops s) (srs s) (hb s) (stat s) (a_ops s) (a_srs s) (dep_ck s) (sto s) (ticker s) true 0 in
+        let s1 := MkSt (now s) (ops s) (srs s) (hb s) (stat s) (a_ops s) (a_srs s) (dep_ck s) (sto s) (ticker s) true 0 (pick s) in
         (s1, mk_obs s1 [])
       else (s, mk_obs s [])
+  | OChoose co cr =>
+      let s1 := MkSt (now s) (ops s) (srs s) (hb s) (stat s) (a_ops s) (a_srs s) (dep_ck s) (sto s) (ticker s) (holdw s) (writing s) (Some (co, cr)) in
+      (s1, mk_obs s1 [])
   | OReleaseW =>
       if writing s =? 0 then (s, mk_obs s [])
       else
@@ -281,7 +309,7 @@ Definition step (c : cfg) (s : st) (o : op) : st * obs :=
         (* the guard of finishSnapshotAsync: a snapshot superseded by a newer published one is not installed *)
         let install := q_install_superseded (qk c) || (completed so <? w) in
         let so' := if install then MkStore (pend so) w (ctr so) (splitters so) else so in
-        let s1 := MkSt (now s) (ops s) (srs s) (hb s) (stat s) (a_ops s) (a_srs s) (dep_ck s) so' (ticker s) (holdw s) 0 in
+        let s1 := MkSt (now s) (ops s) (srs s) (hb s) (stat s) (a_ops s) (a_srs s) (dep_ck s) so' (ticker s) (holdw s) 0 (pick s) in
         (s1, MkObs (status_code (stat s1)) [] [] 0 0 (if install then w else 0) 0)
   end.
 
